@@ -19,6 +19,8 @@ pub open spec fn hm_spec(query: &TextRef, hit: &Hit) -> bool {
 pub fn hit_matches(query: &TextRef, hit: &Hit) -> (ret: bool)
     requires forall|k: int| 0 <= k < hit.rmatches@.len() ==> (#[trigger] hit.rmatches@[k]).slice.0 <= hit.rmatches@[k].slice.1,
         forall|k: int| 0 <= k < hit.qmatches@.len() ==> (#[trigger] hit.qmatches@[k]).slice.0 <= hit.qmatches@[k].slice.1 <= 0x4000_0000,
+        // matches come in pairs (text_match's contract)
+        hit.rmatches@.len() >= 1 ==> hit.qmatches@.len() >= 1,
     // exact specification (GLUE: Store::search is stated over hm_spec; every consequence of it that a property needs is a separately
     // tagged clause below, so a failure of this line alone is reported in the evidence notes, not as a violation)
     ensures ret == hm_spec(query, hit), // [GLUE]
